@@ -41,9 +41,16 @@ func c04Alphabet(full bool) []jr.Dir {
 				a = append(a, jr.A(d, jr.Bal{Acc: acc, Qty: v, Com: "CHF"}))
 			}
 		}
+		// an income/expense account has no tracked position: close must still close it
+		r := "Expenses:Rent"
+		a = append(a, jr.O(d1, r), jr.C(d1, r), jr.C(d2, r), jr.T(d2, "e", jr.B(food, r, "1", "CHF")))
 		l := "Liabilities:Card"
 		a = append(a, jr.O(d1, l), jr.T(d1, "l", jr.B(food, l, "1", "CHF")), jr.A(d2, jr.Bal{Acc: l, Qty: "1", Com: "CHF"}), jr.C(d2, l))
 		return a
+	}
+	for _, d := range []string{d1, d2} {
+		r := "Expenses:Rent"
+		a = append(a, jr.O(d, r), jr.C(d, r), jr.T(d, "e", jr.B(food, r, "1", "CHF")))
 	}
 	for _, acc := range []string{"Assets:Bank", "Liabilities:Card"} {
 		for _, d := range []string{d1, d2} {
